@@ -176,7 +176,7 @@ func (e *Env) RunCover(p *plan.Plan) string {
 	cmd := exec.CommandContext(ctx, e.BinCover, "-test.run", "^TestWorker$", "-test.timeout", "0", "-test.coverprofile", prof)
 	cmd.Dir = dir
 	cmd.Env = append(os.Environ(), "VERIF_PLAN="+planPath, "VERIF_OUT="+filepath.Join(dir, "out.json"), "VERIF_TMP="+filepath.Join(dir, "tmp"),
-		"VERIF_MODPATH="+e.ModPath, "GOMAXPROCS=4")
+		"VERIF_MODPATH="+e.ModPath, "GOMAXPROCS=4", "VERIF_NOEXIT=1")
 	cmd.Run()
 	b, _ := os.ReadFile(prof)
 	return string(b)
